@@ -9,7 +9,7 @@ decoding twice gives the same set; importing encoded bytes in set (clear) mode =
 The model (Model.lean) follows roaring/roaring.go on branch verif/a03, i.e. after the `fix:`
 commits listed in design/C04.md.  `Res.panic` is the outcome of any out-of-bounds access.
 -/
-import PV.C04.LemmasOfficial
+import PV.C04.LemmasOfficialIter
 namespace PV.C04
 
 /-! ### Pilosa format -/
@@ -151,6 +151,77 @@ theorem C04_import_clear (m : VMap) (hm : VMapOk m) (b : Bitmap) (hb : BitmapWf 
   unfold Spec.delta
   rw [i3]; unfold Spec.diff
   split <;> omega
+
+/-- `rowSet` is exact: for an accepted payload and every row (`rowSize` containers per row, as
+fragment.importRoaring passes it; 0 = a single row), the entry ImportRoaringBits reports is the
+number of bits set in that row (clear mode: minus the number cleared); rows without an entry did
+not change. -/
+theorem C04_import_rowset (m : VMap) (hm : VMapOk m) (d : Bytes) (clear : Bool) (rowSize : Nat) (w : Walk)
+    (hw : iterate d = .ok w) (hv : walkVerdict w = none) (r : Nat) :
+    ∃ m' ch, importBits m d clear = .ok (m', ch)
+      ∧ rowDelta (importRowSet m d clear rowSize) r
+          = (rowCount rowSize m' r : Int) - (rowCount rowSize m r : Int) := by
+  obtain ⟨_, hit⟩ := walkVerdict_none w hv
+  refine ⟨_, _, importBits_eq m d clear w hw hv, ?_⟩
+  unfold importRowSet
+  rw [hw]
+  simp only [hv]
+  exact importRows_spec clear rowSize w.items m hm hit r
+
+/-! ### the import iterators on encoded payloads -/
+
+/-- The Pilosa-format iterator (`newPilosaRoaringIterator` + `Next`, as ImportRoaringBits uses it)
+over `WriteTo(b)` yields exactly b's (optimized, non-empty) containers, in key order, then io.EOF;
+each is consistent with its header and together they carry b's set. -/
+theorem C04_iterate_pilosa (b : Bitmap) (hb : BitmapWf b) (hsize : (encodeP b).length < 2 ^ 32) :
+    iterate (encodeP b) = .ok ⟨b.optimize.cs.map itemOf, none⟩
+    ∧ walkVerdict ⟨b.optimize.cs.map itemOf, none⟩ = none
+    ∧ itemsValues (b.optimize.cs.map itemOf) = b.values :=
+  ⟨(iterate_encodeP b hb hsize).1, walkVerdict_encodeP b hb, (iterate_encodeP b hb hsize).2.2⟩
+
+/-- The official-format iterator (`newOfficialRoaringIterator` + `Next`) over what the reference
+encoder wrote yields exactly the groups of `g`: one item per group, in order, with the container
+the encoder chose (array up to 4096 values, bitmap above, run containers converted from
+start/length-1 to start/last in a copy), for all three encoder modes, with the offset header
+skipped when the run cookie comes with four or more containers; then io.EOF. -/
+theorem C04_iterate_official (mode : Nat) (g : VMap) (hg : ∀ kv ∈ g, GroupOk kv)
+    (hk : g.Pairwise (fun a b => a.1 < b.1)) (hsize : (Spec.encodeOfficial mode g).length < 2 ^ 32) :
+    iterate (Spec.encodeOfficial mode g) = .ok ⟨g.map (gitem mode), none⟩
+    ∧ (∀ kv ∈ g, (gitem mode kv).key = kv.1 ∧ (gitem mode kv).n = kv.2.length ∧ (gitem mode kv).c.values = kv.2)
+    ∧ walkVerdict ⟨g.map (gitem mode), none⟩ = none
+    ∧ itemsValues (g.map (gitem mode)) = VMap.values g :=
+  ⟨iterate_encodeOfficial mode g hg hk hsize,
+   fun kv hkv => ⟨rfl, rfl, ocont_values mode kv.2 (hg kv hkv).asc (hg kv hkv).bound⟩,
+   walkVerdict_official mode g hg, itemsValues_gitem mode g hg⟩
+
+/-- Importing the official encoding of the set grouped as `g` (any of the three encoder modes)
+into any well-formed bitmap: set mode = union with that set, clear mode = difference from it,
+and `changed` = the number of bits by which the bitmap changed. -/
+theorem C04_import_official (m : VMap) (hm : VMapOk m) (mode : Nat) (g : VMap) (clear : Bool)
+    (hg : ∀ kv ∈ g, GroupOk kv) (hk : g.Pairwise (fun a b => a.1 < b.1))
+    (hsize : (Spec.encodeOfficial mode g).length < 2 ^ 32) :
+    ∃ m' ch, importBits m (Spec.encodeOfficial mode g) clear = .ok (m', ch)
+      ∧ m'.values = (if clear then Spec.diff m.values (VMap.values g) else Spec.union m.values (VMap.values g))
+      ∧ ch = Spec.delta m.values m'.values
+      ∧ ch = (if clear then m.values.length - m'.values.length else m'.values.length - m.values.length) := by
+  obtain ⟨m', ch, i1, _, i3, i4⟩ := importBits_spec m hm (Spec.encodeOfficial mode g) clear _
+    (iterate_encodeOfficial mode g hg hk hsize) (walkVerdict_official mode g hg) (VMap.values g)
+    (values_asc g (groups_vmapOk g hg hk)) (fun x => by rw [itemsValues_gitem mode g hg])
+  refine ⟨m', ch, i1, i3, i4, ?_⟩
+  rw [i4]
+  cases clear with
+  | false =>
+    simp only [Bool.false_eq_true, ↓reduceIte] at i3 ⊢
+    have := length_unionAsc_ge m.values (VMap.values g)
+    unfold Spec.delta
+    rw [i3]; unfold Spec.union
+    split <;> omega
+  | true =>
+    simp only [↓reduceIte] at i3 ⊢
+    have := length_diffAsc_le m.values (VMap.values g)
+    unfold Spec.delta
+    rw [i3]; unfold Spec.diff
+    split <;> omega
 
 /-! ### non-vacuity -/
 
